@@ -31,6 +31,7 @@ ASSUMPTIONS = ["the message size argument of the negotiation is the size of a me
 
 
 def check(env, rep, tier):
+    include(rep, env, tier, "c13", ("C13.1", "C13.5"), "C10.8", "'the size the client asked for': the client's Block option reaches the negotiation through the Block decoder, which accepts every encodable value (a value that fails to decode is treated as absent)")
     configs = ["default"] if tier == "quick" else ["default", "udp"]
     rep.configs = configs
     for cfg in configs:
@@ -264,6 +265,7 @@ def check_sites(prog, rep, R):
                 if s3.dead:
                     continue
                 s3.cells[("gh", "bvsize")] = sz
+                s3.cells[("gh", "bvszx")] = szx
                 out.append((s3, mk_ok(bv, call.dest_ty)))
             return out
         if new_b is not None:
@@ -391,6 +393,19 @@ def check_sites(prog, rep, R):
             bad += 1
             if os.environ.get("VERIF_DEBUG_C10"):
                 print("REQ path not shown:", sorted(marks), tr.ret_kind(rv), sz, encs)
+    # the Block1 value put on the reply is the negotiated one (not the client's, not a stale one)
+    opts = [e for e in tr.events if e[0] == "option" and e[2] == "Block1"]
+    okv = bool(opts)
+    for e in opts:
+        val, s_ = e[3], e[4]
+        neg_szx = s_.cells.get(("gh", "bvszx"))
+        if not (isinstance(val, StructV) and i_szx is not None and isinstance(val.fields[i_szx], IntV) and isinstance(neg_szx, IntV)
+                and val.fields[i_szx].aff == neg_szx.aff):
+            okv = False
+    rep.ob("C10.6", "acknowledged-value-is-negotiated", okv,
+           "a Block1 option is put on the reply whose size exponent is not the one the negotiation produced (e.g. the client's own "
+           "value is echoed): the acknowledged size was not chosen against the budget", site,
+           sample={"rule": "C10.6", "block1_writes": len(opts)})
     rep.ob("C10.6", "fits|request", bad == 0 and n >= 2,
            "the upload handler acknowledges a block size on %d of %d paths without size + measured non-payload size of this request + "
            "%d-byte reserve being shown <= the budget (the client's next block of that size need not fit)" % (bad, n, R), site,
